@@ -75,6 +75,35 @@ func VerifRouteFromCache() {
 	verifAssert(got == want, "the cache returns exactly the region whose range contains the key, or nothing")
 }
 
+// VerifRouteConcurrent: two callers look up rows of one table at the same time (the cache is
+// read under a read lock, which both hold at once): each gets the region that contains its own
+// row, and the lookups do not race on shared state.
+func VerifRouteConcurrent() {
+	c := vNewRootClient()
+	split := verifBytesN(1)
+	lo, hi := vMkRegion(0, 1, nil, split), vMkRegion(0, 2, split, nil)
+	c.regions.put(lo)
+	c.regions.put(hi)
+	k1, k2 := verifBytes(1), verifBytes(1)
+	var r1, r2 hrpc.RegionInfo
+	done := make(chan struct{})
+	go func() {
+		r1 = c.getRegionFromCache([]byte("t"), k1)
+		close(done)
+	}()
+	r2 = c.getRegionFromCache([]byte("t"), k2)
+	<-done
+	want := func(k []byte) hrpc.RegionInfo {
+		if bytes.Compare(k, split) < 0 {
+			return lo
+		}
+		return hi
+	}
+	verifAssert(r1 == want(k1), "the first caller gets the region containing its row")
+	verifAssert(r2 == want(k2), "the second caller gets the region containing its row")
+	verifReach("routed-concurrently")
+}
+
 // ---- the fast path of getRegionAndClientForRPC and the addressing of the request ----
 
 type vRegionClient struct {
